@@ -21,7 +21,9 @@ def check (toks : List String) : Option String := do
   let n := n.toNat
   let i : Rl4co.Cvrp.Inst := { n := n, cap := cap, demand := fn1From1 dem, D := fn2 (n + 1) dm }
   let as := toNats acts
-  pure s!"check={bit (Rl4co.Cvrp.check i tol as)} feas={bit (Rl4co.Spec.Cvrp.feasible i as)}"
+  let feas := Rl4co.Spec.Cvrp.feasible i as
+  let near := !feas && Rl4co.Spec.Cvrp.feasibleWithin tol i as
+  pure s!"check={bit (Rl4co.Cvrp.check i tol as)} feas={bit feas} near={bit near}"
 
 def handlers : List (String × (List String → Option String)) :=
   [("cvrp.episode", episode), ("cvrp.check", check)]
